@@ -34,9 +34,8 @@ type BudgetExceeded struct{ Ticks uint64 }
 func Tick() {
 	Ticks++
 	if Budget != 0 && Ticks > Budget {
-		b := Ticks
-		Budget = 0
-		panic(BudgetExceeded{Ticks: b})
+		// stays armed: every further step of this case fails too, until the harness resets it
+		panic(BudgetExceeded{Ticks: Ticks})
 	}
 }
 `
